@@ -30,6 +30,10 @@ fn sweep(tier: Tier) -> Strings {
     Strings::new(FRAGMENTS, tier.pick(4, 5))
 }
 
+fn sweep_wide(tier: Tier) -> Strings {
+    Strings::new(&fragments_wide(), tier.pick(3, 4))
+}
+
 fn perr_class(e: &PErr) -> String {
     match e {
         PErr::Lex(l) => format!("lex-{:?}", l),
@@ -215,6 +219,14 @@ impl Prop for C05 {
             timeout: Duration::from_secs(1200),
             what: "every single-token deletion / swap / replacement and single-character deletion / duplication of each valid program".into(),
         });
+        let sww = sweep_wide(tier);
+        stages.push(Stage {
+            name: "strings-wide".into(),
+            len: sww.len(),
+            chunk: (sww.len() / 64).max(2000),
+            timeout: Duration::from_secs(1200),
+            what: format!("all strings of <= {} fragments over the alphabet extended by one representative per standard-library character class ({} fragments)", sww.max_len, sww.alphabet.len()),
+        });
         Plan {
             stages,
             rule: "token sequences, fragment strings and single-edit corruptions of valid programs, each judged by the reference recogniser (lenient as the property is: optional ';', one trailing comma in list/map); \
@@ -277,6 +289,18 @@ impl Prop for C05 {
             }
             return;
         }
+        if stage == sq.len() + 3 {
+            let sw = sweep_wide(tier);
+            for i in a..b {
+                out.idx = Some(i);
+                let s = sw.get(i);
+                judge(&s, &ops, "strings-wide", out);
+                track(&s, out);
+            }
+            out.count("states", b - a);
+            out.count("transitions", b - a);
+            return;
+        }
         let progs = corruption_programs(tier);
         for i in a..b {
             out.idx = Some(i);
@@ -305,6 +329,9 @@ impl Prop for C05 {
         }
         if stage == sq.len() + 1 {
             return format!("registered case {}", i);
+        }
+        if stage == sq.len() + 3 {
+            return show(&sweep_wide(tier).get(i));
         }
         show(&corruption_programs(tier)[i as usize])
     }
